@@ -164,7 +164,8 @@ __CPROVER_assigns(self->m_running, self->m_event_processing, __CPROVER_object_up
 __CPROVER_ensures(!g_exc ==> self->m_active_state_ids[g_zone[g_w]] == g_tid[g_w])                                           /*@ob C09.every-named-target-becomes-active-in-its-region */
 __CPROVER_ensures((!g_exc && NO_TARGET_IN_K && g_nt != nr_regions) ==> (g_hist_called == 1 && self->m_active_state_ids[g_k] == g_hist_ids[g_k]))  /*@ob C08,C09.untargeted-regions-follow-the-history-policy */
 __CPROVER_ensures(!g_exc ==> g_entry_next == (g_nt == nr_regions ? g_nt : nr_regions))                                      /*@ob C09.every-region-entered-once */
-__CPROVER_ensures(!g_exc ==> (!self->m_event_processing && g_pool_runs == (g_has_event_pool ? 1 : 0)))
+__CPROVER_ensures(!g_exc ==> g_pool_runs == (g_has_event_pool ? 1 : 0))
+__CPROVER_ensures(!self->m_event_processing)                                                                               /*@ob C04,C12.machine-not-left-busy */
 ;
 process_result process_event(fsm_t* self, event_t event)
 __CPROVER_requires(g_seq == 2 && g_pe_calls == 0 && !g_exc && !self->m_event_processing)   /*@ob C09.entry-point-event-processed-once-after-the-entry */
@@ -175,7 +176,7 @@ __CPROVER_ensures(g_pe_calls == 1)
 void on_explicit_entry_stub(fsm_t* self, event_t event, fsm_t* fsm)
 __CPROVER_requires(g_seq == 0 && !g_exc && EV_EQ(event, g_evt))
 __CPROVER_assigns(g_seq, g_exc, self->m_event_processing)
-__CPROVER_ensures(g_exc || (g_seq == 2 && !self->m_event_processing))
+__CPROVER_ensures((g_exc || g_seq == 2) && !self->m_event_processing)      /* the on_explicit_entry contract above */
 ;
 void on_pseudo_entry(fsm_t* self, event_t event, fsm_t* fsm)
 __CPROVER_requires(__CPROVER_is_fresh(self, sizeof(*self)) && g_seq == 0 && g_pe_calls == 0 && !g_exc && EV_EQ(event, g_evt))
